@@ -38,12 +38,31 @@ func CronNext(expr string, afterMs int64) (int64, bool) {
 
 // expandTemplate substitutes the two documented variables literally.
 func expandTemplate(tpl, id string, ts int64) (string, bool) {
-	out := strings.ReplaceAll(tpl, "{{.id}}", id)
-	out = strings.ReplaceAll(out, "{{.timestamp}}", fmt.Sprint(ts))
-	if strings.Contains(out, "{{") || strings.Contains(out, "}}") {
+	// one pass, left to right: substituted text is never rescanned
+	var sb strings.Builder
+	rest := tpl
+	for {
+		i := strings.Index(rest, "{{")
+		if i < 0 {
+			break
+		}
+		sb.WriteString(rest[:i])
+		switch {
+		case strings.HasPrefix(rest[i:], "{{.id}}"):
+			sb.WriteString(id)
+			rest = rest[i+len("{{.id}}"):]
+		case strings.HasPrefix(rest[i:], "{{.timestamp}}"):
+			sb.WriteString(fmt.Sprint(ts))
+			rest = rest[i+len("{{.timestamp}}"):]
+		default:
+			return "", false // some other template action: not judged
+		}
+	}
+	if strings.Contains(rest, "}}") {
 		return "", false
 	}
-	return out, true
+	sb.WriteString(rest)
+	return sb.String(), true
 }
 
 func scheduleImmutableSig(x *tables.Schedule) string {
